@@ -199,6 +199,7 @@ type splitCase struct {
 	noPrune bool
 	vals    map[string]int64 // scalar parameter fixed to a value
 	nils    map[string]bool  // pointer parameter is nil in this variant
+	dyns    map[string]string // interface parameter: "nil" | "is:<Type>" | "other:<Type>" (dynamic type is / is not *Type)
 }
 
 var splitValRe = regexp.MustCompile(`^value\s+(\w+)\s+in\s+(\d+)\.\.(\d+)$`)
@@ -230,6 +231,31 @@ func (e *Engine) splitCases(c *Contract) []splitCase {
 					} else {
 						nc.label += name + "!=nil"
 					}
+					next = append(next, nc)
+				}
+			}
+			cases = next
+			continue
+		}
+		if strings.HasPrefix(sp.Text, "dyn ") {
+			// three variants of an interface parameter: nil / dynamic type *T (T a struct of this package) / any other type
+			f := strings.Fields(strings.TrimPrefix(sp.Text, "dyn "))
+			if len(f) != 2 {
+				e.fail("split dyn needs: split dyn <param> <Type>")
+			}
+			var next []splitCase
+			for _, base := range cases {
+				for _, kind := range []string{"nil", "is:" + f[1], "other:" + f[1]} {
+					nc := base
+					nc.dyns = map[string]string{}
+					for k, v := range base.dyns {
+						nc.dyns[k] = v
+					}
+					nc.dyns[f[0]] = kind
+					if nc.label != "" {
+						nc.label += ","
+					}
+					nc.label += f[0] + "~" + kind
 					next = append(next, nc)
 				}
 			}
@@ -345,7 +371,7 @@ func (e *Engine) makeParamValue(st *State, name string, t types.Type, fixedLen i
 	case *types.Slice:
 		return e.makeParamSlice(st, name, u.Elem(), fixedLen, depth)
 	case *types.Interface:
-		return &IfaceVal{null: mkVar(name+".isnil", SBool), tagT: mkIntVarR(name+".dyn", nil, nil)}
+		return &IfaceVal{null: mkVar(name+".isnil", SBool), tagT: mkIntVarR(name+".dyn", nil, nil), obj: name}
 	case *types.Struct, *types.Array:
 		r := e.newRegion(name, t, false)
 		e.fillParamRegion(st, r, nil, t, name, depth)
@@ -412,7 +438,7 @@ func (e *Engine) fillParamRegion(st *State, r *Region, path []int, t types.Type,
 		case *types.Slice:
 			st.mem.cells[pathKey(r.id, full)] = e.makeParamSlice(st, nm, u.Elem(), -1, depth+1)
 		case *types.Interface:
-			st.mem.cells[pathKey(r.id, full)] = &IfaceVal{null: mkVar(nm+".isnil", SBool), tagT: mkIntVarR(nm+".dyn", nil, nil)}
+			st.mem.cells[pathKey(r.id, full)] = &IfaceVal{null: mkVar(nm+".isnil", SBool), tagT: mkIntVarR(nm+".dyn", nil, nil), obj: nm}
 		default:
 			e.fail("unsupported field type %s at %s", lt, nm)
 		}
@@ -502,6 +528,33 @@ func (e *Engine) verifyVariant(fn *ssa.Function, c *Contract, plan aliasPlan, sc
 					iv.null = tFalse
 				}
 			}
+			if kind, ok := sc.dyns[p.Name()]; ok {
+				iv, isI := args[i].(*IfaceVal)
+				if !isI {
+					e.fail("split dyn %s: not an interface parameter", p.Name())
+				}
+				switch {
+				case kind == "nil":
+					args[i] = &IfaceVal{null: tTrue}
+				default:
+					tn := kind[strings.Index(kind, ":")+1:]
+					obj := fn.Pkg.Pkg.Scope().Lookup(tn)
+					if obj == nil {
+						e.fail("split dyn %s: unknown type %s", p.Name(), tn)
+					}
+					pt := types.NewPointer(obj.Type())
+					if strings.HasPrefix(kind, "is:") {
+						pv := e.makeParamValue(st, p.Name()+".(*"+tn+")", pt, -1, 0)
+						args[i] = &IfaceVal{null: tFalse, dyn: pt, val: pv}
+						for _, inv := range e.invariantsOfValue(st, pv, pt, p.Name()+".(*"+tn+")") {
+							st.assume(inv.t)
+						}
+					} else {
+						iv.null = tFalse
+						iv.notDyn = append(iv.notDyn, pt)
+					}
+				}
+			}
 			if t, ok := args[i].(*Term); ok && t.Op == "var" && t.Sort == SInt {
 				for _, r := range c.Requires {
 					if m := regexp.MustCompile(`^` + regexp.QuoteMeta(p.Name()) + ` <= (\d+)$`).FindStringSubmatch(strings.TrimSpace(r.Text)); m != nil {
@@ -577,6 +630,10 @@ func (e *Engine) verifyVariant(fn *ssa.Function, c *Contract, plan aliasPlan, sc
 	st.entrySubst = make(map[string]*Term, len(st.subst))
 	for k, v := range st.subst {
 		st.entrySubst[k] = v
+	}
+	st.entryNonzero = map[string]bool{}
+	for k := range st.nonzero {
+		st.entryNonzero[k] = true
 	}
 	old := st.fork()
 	// vacuity guard: the entry assumptions must be satisfiable
